@@ -261,7 +261,7 @@ def _indexed(universe, loaded):
 
 def _chain_bad(universe, c):
     while c is not None:
-        if universe[c]["bad"]:
+        if G.class_bad(universe[c]):
             return True
         c = universe[c]["base"]
     return False
